@@ -360,6 +360,7 @@ func GenPlan(t *rapid.T, o Opts) Plan {
 		}
 		p.DueDates = append(p.DueDates, d)
 	}
+	p.Stale = rapid.IntRange(0, 5).Draw(t, "stale") == 0
 	if rapid.IntRange(0, 14).Draw(t, "trounding") == 0 {
 		p.TotalsRounding = decimal(t, "trnd", 1, c, sign(t, "trnd_neg", 50))
 	}
